@@ -25,9 +25,14 @@ var concTemplates = map[string]string{
 	"f":         `{% macro m(p) %}<{{ p }}>{% endmacro %}{{ _self.m(x) }}{% embed 'a.html' %}{% block b %}F{{ y }}{% endblock %}{% endembed %}`,
 	"bad.html":  `{{ x }}{% if y %}unclosed`,
 	"g.js.twig": `{% from 'f' import m %}{{ m(y) }}/*{{ x }}*/`,
+	// every operator, test and literal form at least once; the pattern of "matches" and the operands differ per call
+	"h.html": `{{ x matches pat }}{{ y matches '^' ~ n }}{{ n in [1, 2, n] }}{{ n not in 1..3 }}{{ x starts with '<' }}{{ x ends with '>' }}` +
+		`{{ n + 1 - 2 * 3 / 4 // 5 % 6 ** 2 }}{{ n b-and 3 b-or 4 b-xor 1 }}{{ n == 1 or n != 2 and not (n < 3) }}{{ n >= 1 ? "a#{n}b" : {k: n}.k }}` +
+		`{{ [n, x][0] }}{{ x ~ y|raw }}{% set z = n %}{% do z %}{{ n is defined }}`,
+	"i.html": `{% use 'a.html' %}{% import 'f' as lib %}{{ lib.m(n) }}{{ block('b') }}{% filter upper %}{{ n }}{% endfilter %}{% verbatim %}{{ v }}{% endverbatim %}`,
 }
 
-var concNames = []string{"a.html", "b.js", "c.css", "d.txt", "e.html", "f", "bad.html", "g.js.twig"}
+var concNames = []string{"a.html", "b.js", "c.css", "d.txt", "e.html", "f", "bad.html", "g.js.twig", "h.html", "i.html"}
 
 type concResult struct {
 	G     int    `json:"g"`
@@ -39,7 +44,8 @@ type concResult struct {
 }
 
 func concCall(env *stick.Env, tpl, api string, g, round int) concResult {
-	ctx := map[string]stick.Value{"x": fmt.Sprintf("<%d&'\">", g), "y": fmt.Sprintf("%d/*%d*/", round%3, g%4)}
+	ctx := map[string]stick.Value{"x": fmt.Sprintf("<%d&'\">", g), "y": fmt.Sprintf("%d/*%d*/", round%3, g%4),
+		"n": float64(round%7 + 1), "pat": fmt.Sprintf("^<%d.*r%d", g, round)}
 	res := concResult{G: g, Round: round, Tpl: tpl, API: api}
 	if api == "parse" {
 		tree, err := env.Parse(tpl)
@@ -108,19 +114,9 @@ func init() {
 			}
 			return concNames[k], api
 		}
-		// 1. every call alone, on a fresh environment: the sequential results
-		alone := map[string]concResult{}
-		key := func(r concResult) string { return fmt.Sprintf("%d/%d", r.G, r.Round) }
-		seqEnv := mk()
-		for g := 0; g < c.N; g++ {
-			for r := 0; r < c.Rounds; r++ {
-				tpl, api := pick(g, r)
-				res := concCall(seqEnv, tpl, api, g, r)
-				alone[key(res)] = res
-			}
-		}
 		before, _ := raceReports()
-		// 2. the same calls from N goroutines on one shared environment
+		// 1. the calls from N goroutines on one shared environment - FIRST, so that nothing the library keeps between
+		//    calls (caches, pools) has been warmed up by a sequential run
 		env := mk()
 		results := make([][]concResult, c.N)
 		var wg sync.WaitGroup
@@ -138,6 +134,17 @@ func init() {
 		}
 		close(start)
 		wg.Wait()
+		// 2. every call alone, on another environment: the sequential results
+		alone := map[string]concResult{}
+		key := func(r concResult) string { return fmt.Sprintf("%d/%d", r.G, r.Round) }
+		seqEnv := mk()
+		for g := 0; g < c.N; g++ {
+			for r := 0; r < c.Rounds; r++ {
+				tpl, api := pick(g, r)
+				res := concCall(seqEnv, tpl, api, g, r)
+				alone[key(res)] = res
+			}
+		}
 		after, report := raceReports()
 		events := []map[string]interface{}{}
 		for g := 0; g < c.N; g++ {
